@@ -686,6 +686,9 @@ pub fn run(ctx: &Ctx) {
         },
     );
 
+    if thorough {
+        run_libfuzzer(ctx);
+    }
     // (5) compile-time macros: differential against the recogniser and the run-time parser
     let n_lit = ctx.tier.pick(350, 5000);
     let mut literals: Vec<(Kind, String)> = vec![];
@@ -733,6 +736,68 @@ pub fn run(ctx: &Ctx) {
             }
         }
     }
+}
+
+/// Coverage-guided differential campaign (libFuzzer via cargo-fuzz), thorough tier only. The oracle inside the target
+/// is `check_string`; a disagreement aborts the target and is turned into an ordinary replay case here.
+fn run_libfuzzer(ctx: &Ctx) {
+    if std::env::var_os("VERIF_SKIP_FUZZ").is_some() {
+        ctx.extra("libfuzzer", json!("skipped (VERIF_SKIP_FUZZ set)"));
+        return;
+    }
+    let fuzz_dir = verif_root().join("fuzz");
+    let scratch = Scratch::new("c09fuzz");
+    let corpus = scratch.path.join("corpus");
+    std::fs::create_dir_all(&corpus).unwrap();
+    // small valid inputs per grammar as seeds (byte 0 = grammar selector)
+    for (i, (k, s)) in [(0u8, "my-layer"), (0, "build"), (1, "web.worker_1"), (2, "heroku/jvm"), (2, "sbom"), (3, "KEY_1"), (4, "1.2.3"), (4, "0.0.18446744073709551615"), (5, "0.10"), (5, "2")].iter().enumerate() {
+        let mut b = vec![*k];
+        b.extend_from_slice(s.as_bytes());
+        std::fs::write(corpus.join(format!("seed{i}")), b).unwrap();
+    }
+    let runs: u64 = std::env::var("VERIF_FUZZ_RUNS").ok().and_then(|s| s.parse().ok()).unwrap_or(3_000_000);
+    let out = std::process::Command::new("cargo")
+        .args(["+nightly", "fuzz", "run", "--fuzz-dir"])
+        .arg(&fuzz_dir)
+        .arg("c09_grammar")
+        .arg(&corpus)
+        .arg("--")
+        .args([format!("-runs={runs}"), format!("-seed={}", (ctx.seed % 0xffff_fffe) + 1), "-max_len=40".into(), "-len_control=0".into(), "-print_final_stats=1".into(), format!("-artifact_prefix={}/", scratch.path.display())])
+        .env("CARGO_NET_OFFLINE", "true")
+        .output();
+    let out = match out {
+        Ok(o) => o,
+        Err(e) => {
+            ctx.inconclusive(format!("cargo fuzz could not be started: {e}"));
+            return;
+        }
+    };
+    let stderr = String::from_utf8_lossy(&out.stderr).to_string();
+    if let Some(line) = stderr.lines().find(|l| l.starts_with("C09-FUZZ-FAIL ")) {
+        // re-derive the case from the artifact file (exact bytes)
+        let art = std::fs::read_dir(&scratch.path).ok().and_then(|rd| rd.flatten().map(|e| e.path()).find(|p| p.file_name().map(|n| n.to_string_lossy().starts_with("crash-")).unwrap_or(false)));
+        if let Some(bytes) = art.and_then(|a| std::fs::read(a).ok()) {
+            if let (Some(k), Ok(s)) = (bytes.first(), std::str::from_utf8(&bytes[1.min(bytes.len())..])) {
+                let kinds = [Kind::LayerName, Kind::ProcessType, Kind::BuildpackId, Kind::ExecDKey, Kind::Version, Kind::Api];
+                let kind = kinds[(*k as usize) % kinds.len()];
+                ctx.eval();
+                ctx.check_case("libfuzzer", check_string(kind, s), || case_json(kind, s));
+                return;
+            }
+        }
+        ctx.inconclusive(format!("libFuzzer reported a failure that could not be reconstructed: {line}"));
+        return;
+    }
+    if !out.status.success() {
+        ctx.inconclusive(format!("cargo fuzz run failed: {}", stderr.lines().rev().take(8).collect::<Vec<_>>().join(" | ")));
+        return;
+    }
+    let stat = |name: &str| stderr.lines().find_map(|l| l.strip_prefix(&format!("stat::{name}:")).map(|v| v.trim().parse::<u64>().unwrap_or(0))).unwrap_or(0);
+    let executed = stat("number_of_executed_units");
+    ctx.eval_n(executed);
+    ctx.class_n("libfuzzer-executions", executed);
+    let cov = stderr.lines().rev().find_map(|l| l.split("cov: ").nth(1).and_then(|r| r.split_whitespace().next()).map(String::from)).unwrap_or_default();
+    ctx.extra("libfuzzer", json!({"target": "fuzz/fuzz_targets/c09_grammar.rs", "executed_units": executed, "final_cov_edges": cov, "new_units_added": stat("new_units_added"), "seed": (ctx.seed % 0xffff_fffe) + 1, "max_len": 40}));
 }
 
 pub fn replay(ctx: &Ctx, _sub: &str, case: &Value) {
